@@ -118,8 +118,11 @@ PROPS["C08"] = {
     "parts": [{"name": "frames", "pkg": "c08", "chk": "chk_c08_frames", "args": ["frames"]},
               {"name": "big", "pkg": "c08", "chk": "chk_c08_big", "args": ["big"]},
               {"name": "ws", "pkg": "c08", "chk": "chk_c08_ws", "args": ["ws"]},
-              {"name": "resp", "pkg": "c08", "chk": "chk_c08_resp", "args": ["resp"]}],
+              {"name": "resp", "pkg": "c08", "chk": "chk_c08_resp", "args": ["resp"]},
+              {"name": "slowwriter", "pkg": "c08", "chk": "chk_c08_slow", "args": ["slowwriter"]}],
     "reasons": {
+        "slowwriter": {"9": "F33: the request direction fails while the target's first response is still being written to a slow client, and the client takes that frame only after the call is over: the trailer frame comes first and the data frame lands behind it, written after ServeHTTP had returned",
+                       "10": "with a client that reads slowly the response frames are not data frames followed by exactly one trailer frame, or the response writer was used after ServeHTTP had returned (other than the schedule of F33)"},
         "frames": {"1": "a request frame within the limit was not delivered intact, in order, exactly once", "2": "a malformed/oversize tail did not end the call with an error (or a clean stream did)"},
         "big": {"1": "a real-size frame within the 4 MiB limit was not delivered whole", "3": "an oversize or short frame was truncated/accepted instead of rejected"},
         "ws": {"1": "a grpc-websockets data message (possibly empty) was dropped, duplicated or reordered", "2": "finish marker / malformed message did not end the request stream as specified"},
@@ -306,13 +309,14 @@ PROPS["C03"] = {
     "level_note": "Trusted: Coq kernel, extraction, modelrun, Go harness; net/url's parsing of the request target (the model starts from the path as sent), grpc-gateway's runtime.Pattern as modelled (run_ops), the parser model's equality with the code (C20).",
     "design_ref": "DESIGN.md §3 C03",
     "assumptions": ["order across targets is the order in which targets were first added (one UpdateDesc per target in the harness); re-listing is C06's subject",
-                    "seg_ok (variables do not nest) is a hypothesis of the matching theorems; the tokenizer cannot produce nested variables and the check evaluates it on every parsed template"],
+                    "seg_ok (variables do not nest) is no longer a hypothesis: proved for every accepted text (c03_no_nesting), the table theorem c03_route_table_spec holds for any description texts"],
 }
 
 _C17_REASONS = {"2": "a transcoded HTTP request was answered with a 5xx status although the target never fails and every binding is valid (client errors must be 4xx)",
                 "3": "a handler did not return after the client went away",
                 "4": "a handler panicked",
-                "5": "the response is not well-formed for its protocol (HTTP status / JSON lines, gRPC-Web frames ending in exactly one trailer with a grpc-status)"}
+                "5": "the response is not well-formed for its protocol (HTTP status / JSON lines, gRPC-Web frames ending in exactly one trailer with a grpc-status)",
+                "7": "F33 under load: a gRPC-Web response whose only defect is a data frame behind - or, so far, instead of - the trailer frame (the abandoned Send goroutine writes after the handler has moved on)"}
 PROPS["C17"] = {
     "parts": [{"name": "http", "pkg": "c17", "chk": "chk_c17", "args": ["http"]},
               {"name": "grpcweb", "pkg": "c17", "chk": "chk_c17", "args": ["grpcweb"]},
